@@ -93,3 +93,41 @@ Proof. intros ms att v H. unfold set. simpl. rewrite H. reflexivity. Qed.
 
 Lemma all_private : forall l, forallb private_name l = true -> forall n, In n l -> private_name n = true.
 Proof. intros l H n Hin. rewrite forallb_forall in H. auto. Qed.
+
+(* ------------------------------------------------------------------------------------ has() is sound *)
+
+Lemma is_nil_snoc {A} (l : list A) (a : A) : is_nil (l ++ [a]) = false.
+Proof. destruct l; reflexivity. Qed.
+
+(* whatever has() confirms can be read: the whole path exists (a walk that fails ends on None, and has() answers False
+   for None whatever the last component is — repaired C08-has-none) *)
+Lemma has_at_get : forall body t att, has_at t body att = Ok true -> exists c, get t (body ++ [att]) = Ok c.
+Proof.
+  induction body as [|p body IH]; intros t att H; simpl in H.
+  - inversion H as [Ht]. clear H. destruct t as [v|nk ms]; [discriminate|]. simpl.
+    unfold lookup, item_first. simpl.
+    destruct nk as [o| | |]; simpl in Ht |- *.
+    + destruct (getattr (NObj o) att ms) as [[mk c]|]; [eauto|discriminate].
+    + destruct (find is_item att ms) as [[mk c]|]; simpl; [eauto|].
+      destruct (getattr NDict att ms) as [[mk c]|]; [eauto|discriminate].
+    + destruct (find is_item att ms) as [[mk c]|]; simpl; [eauto|].
+      destruct (getattr NArgs att ms) as [[mk c]|]; [eauto|discriminate].
+    + destruct (getattr NGroup att ms) as [[mk c]|]; [eauto|discriminate].
+  - destruct (step t p) as [s c| |] eqn:Es; try discriminate.
+    destruct (IH c att H) as [c' Hc']. exists c'.
+    destruct t as [v|nk ms]; [discriminate|].
+    change ((p :: body) ++ [att]) with (p :: (body ++ [att])). cbn [get]. rewrite is_nil_snoc.
+    unfold lookup, item_first. simpl in Es.
+    destruct nk as [o| | |].
+    + destruct (getattr (NObj o) p ms) as [[mk c0]|]; [|discriminate]. inversion Es; subst. exact Hc'.
+    + destruct (find is_item p ms) as [[mk c0]|]; [|discriminate]. inversion Es; subst. simpl. exact Hc'.
+    + destruct (getattr NArgs p ms) as [[mk c0]|]; [|discriminate]. inversion Es; subst. exact Hc'.
+    + destruct (getattr NGroup p ms) as [[mk c0]|]; [|discriminate]. inversion Es; subst. exact Hc'.
+Qed.
+
+Theorem has_confirmed_is_readable : forall t k, has t k = Ok true -> exists v, getv t k = Ok v.
+Proof.
+  intros t k. unfold has. destruct (split_last k) as [[b a]|] eqn:E; [|discriminate].
+  apply split_last_app in E. subst k. intros H. destruct (has_at_get _ _ _ H) as [c Hc].
+  unfold getv. destruct (b ++ [a]) eqn:Ek; [destruct b; discriminate|]. rewrite Hc. eauto.
+Qed.
